@@ -18,10 +18,16 @@ func c11A6(r *core.R) {
 	if m != nil && !m.unknownIfNotes("sort@Compute") {
 		c := "sort@Compute"
 		lenP := &c11V{k: "call", name: "len", xs: []*c11V{m.P}}
+		var results *c11V
 		isResults := func(v *c11V) bool {
-			return v.k == "call" && strings.HasPrefix(v.name, "make@") && len(v.xs) >= 1 && v.xs[0].key() == lenP.key()
+			ok := v.k == "call" && strings.HasPrefix(v.name, "make@") && len(v.xs) >= 1 && v.xs[0].key() == lenP.key()
+			if ok {
+				results = v
+			}
+			return ok
 		}
 		// loops whose every completed iteration sorts results[<position of the iteration>]
+		var stale []string
 		sorts := map[string]bool{}
 		seen := map[string]bool{}
 		pos := m.fi.Decl.Pos()
@@ -30,19 +36,42 @@ func c11A6(r *core.R) {
 				continue
 			}
 			hit := false
+			// what each slot results[pos] currently holds (a slot may be replaced, e.g. by a right-sized copy)
+			latest := map[string]*c11V{}
 			for _, ev := range p.st.ev {
+				if ev.kind == "store" && ev.lhs.k == "index" && isResults(ev.lhs.xs[0]) {
+					latest[ev.lhs.key()] = ev.rhs
+				}
 				if ev.kind != "call" {
 					continue
 				}
 				rv, _, ok := ev.call.isMethodCall(core.ModulePath+".Updates", "SortByIndex")
-				if !ok || rv.k != "index" || !isResults(rv.xs[0]) {
+				if !ok {
 					continue
 				}
-				if lk, ok := c11IsIterKey(rv.xs[1]); ok && lk == p.loopKey {
+				var at *c11V // the position whose CURRENT list is sorted
+				switch {
+				case rv.k == "index" && isResults(rv.xs[0]):
+					if latest[rv.key()] != nil {
+						stale = append(stale, "`"+src(r.P.Fset, ev.node)+"` ("+r.P.Rel(ev.node.Pos())+") sorts the list that was in the slot before the slot was replaced: the list that is returned stays unsorted")
+						continue
+					}
+					at = rv.xs[1]
+				default:
+					for _, e2 := range p.st.ev {
+						if e2.kind == "store" && e2.lhs.k == "index" && isResults(e2.lhs.xs[0]) && latest[e2.lhs.key()] != nil && latest[e2.lhs.key()].key() == rv.key() {
+							at = e2.lhs.xs[1]
+						}
+					}
+				}
+				if at == nil {
+					continue
+				}
+				if lk, ok := c11IsIterKey(at); ok && lk == p.loopKey {
 					hit = true
 					pos = ev.node.Pos()
 				}
-				if lk, ok := c11IsLoopSym(rv.xs[1]); ok && lk == p.loopKey && c11CountsAll(p, rv.xs[1], rv.xs[0]) {
+				if lk, ok := c11IsLoopSym(at); ok && lk == p.loopKey && c11CountsAll(p, at, results) {
 					hit = true
 					pos = ev.node.Pos()
 				}
@@ -75,6 +104,7 @@ func c11A6(r *core.R) {
 		case nRet == 0:
 			r.Unknown(c, pos, "core.Compute has no success return")
 		case len(bad) > 0:
+			bad = append(bad, stale...)
 			r.Bad(c, pos, "%s: the updates of a parent are appended child by child in map order; unsorted, ApplyUpdatesUpTo (which applies them in slice order, last one wins) leaves wrong child versions on the parent", strings.Join(c11Uniq(bad), "; "))
 		default:
 			r.OK(c, pos, "every success path runs a loop whose every iteration calls results[i].SortByIndex() for its position i")
